@@ -122,6 +122,13 @@ func c12BaseProgs() []c12Prog {
 		{"err-missing-include", map[string]string{"p.vuego": `<b>start</b><template include="nope.vuego"></template>`}, "p.vuego", "", true},
 		{"err-required", map[string]string{"p.vuego": `<b>start</b><template include="c.vuego"></template>`, "c.vuego": `<template :required="must"><i>x</i></template>`}, "p.vuego", "", true},
 		{"err-in-layout", map[string]string{"p.vuego": "---\nlayout: main\n---\n" + ok, "layouts/main.vuego": `<div v-html="content"></div><p>{{ x | nosuchfn }}</p>`}, "p.vuego", "", true},
+		// failures INSIDE the default layout (the one the page did not ask for), and inside a layout named by the page: a missing include, a
+		// failing filter, an unsatisfied :required - errors of the render like any other
+		{"err-missing-include-in-default-layout", map[string]string{"p.vuego": ok, "layouts/base.vuego": `<html><template include="components/nav.vuego"></template><main v-html="content"></main></html>`}, "p.vuego", "", true},
+		{"err-filter-in-default-layout", map[string]string{"p.vuego": ok, "layouts/base.vuego": `<main v-html="content"></main><p>{{ x | nosuchfn }}</p>`}, "p.vuego", "", true},
+		{"err-missing-include-in-component-of-default-layout", map[string]string{"p.vuego": ok, "layouts/base.vuego": `<html><template include="nav.vuego"></template><main v-html="content"></main></html>`, "nav.vuego": `<nav><template include="gone.vuego"></template></nav>`}, "p.vuego", "", true},
+		{"err-missing-include-in-named-layout", map[string]string{"p.vuego": "---\nlayout: main\n---\n" + ok, "layouts/main.vuego": `<template include="gone.vuego"></template><div v-html="content"></div>`}, "p.vuego", "", true},
+		{"err-required-in-default-layout", map[string]string{"p.vuego": ok, "layouts/base.vuego": `<template include="c.vuego"></template><main v-html="content"></main>`, "c.vuego": `<template :required="must"><i>x</i></template>`}, "p.vuego", "", true},
 		{"err-bad-for", map[string]string{"p.vuego": ok + `<p v-for="oops">x</p>`}, "p.vuego", ok + `<p v-for="oops">x</p>`, true},
 		{"err-missing-file", map[string]string{"other.vuego": ok}, "p.vuego", "", true},
 		// documents nested far deeper than any indentation table: a page file of 140 nested elements, and a recursive component 48 levels
